@@ -65,8 +65,8 @@ def prog(kind, n):
         if n < 2:
             return None
         a, b = "v%d" % (n - 1), "v%d" % (n - 2)
-        ops = "let o1: i64 = %s + %s; let o2: i64 = %s - %s; let o3: i64 = %s * %s; let o4: i64 = %s / 3; let o5: i64 = %s %% 7; let o6: i64 = v0 / %s; let o7: i64 = v0 %% %s;" % (a, b, a, b, a, b, a, b, a, b)
-        return HEAD + "def main(arg: i64): i64 { %s %s println_i64(%s); 0 }\n" % (body, ops, total(n, ["o1", "o2", "o3", "o4", "o5", "o6", "o7"]))
+        ops = "let o1: i64 = %s + %s; let o2: i64 = %s - %s; let o3: i64 = %s * %s; let o4: i64 = %s / 3; let o5: i64 = %s %% 7; let o6: i64 = v0 / %s; let o7: i64 = v0 %% %s; let o8: i64 = %s / v0; let o9: i64 = %s %% v0; let o10: i64 = v1 / v0;" % (a, b, a, b, a, b, a, b, a, b, a, b)
+        return HEAD + "def main(arg: i64): i64 { %s %s println_i64(%s); 0 }\n" % (body, ops, total(n, ["o1", "o2", "o3", "o4", "o5", "o6", "o7", "o8", "o9", "o10"]))
     if kind == "clos":
         return HEAD + (
             "def main(arg: i64): i64 { %s let f: Fun[i64, i64] = new { apply(y) => %s }; "
